@@ -107,7 +107,15 @@ pub fn gen_form(c: &mut Case<'_>, max_file: usize) -> Built {
     for _ in 0..n_meta {
         let n = format!("x-amz-meta-{}", c.t.string1(Alpha::Simple, 5));
         if !fields.iter().any(|(f, _)| f.eq_ignore_ascii_case(&n)) {
-            fields.push((vary_case(c, &n), c.t.string1(Alpha::Header, 10)));
+            let mut v = c.t.string1(Alpha::Header, 10);
+            if c.t.chance(40) {
+                // a value of several lines (a textarea): CR LF inside a value is content, only CR LF + delimiter ends it
+                v = format!("{v}\r\n{}", c.t.string1(Alpha::Header, 6));
+                if c.t.bool() {
+                    v.push_str("\r\n--");
+                }
+            }
+            fields.push((vary_case(c, &n), v));
         }
     }
     for (name, vals) in [
@@ -123,7 +131,11 @@ pub fn gen_form(c: &mut Case<'_>, max_file: usize) -> Built {
         }
     }
     if c.t.chance(48) {
-        fields.push((format!("x-ignore-{}", c.t.string1(Alpha::Simple, 4)), c.t.string(Alpha::Header, 8)));
+        let mut v = c.t.string(Alpha::Header, 8);
+        if c.t.chance(64) {
+            v = format!("first line\r\n{v}\r\nlast line");
+        }
+        fields.push((format!("x-ignore-{}", c.t.string1(Alpha::Simple, 4)), v));
     }
     if c.t.chance(48) {
         fields.push(("success_action_status".into(), "201".into()));
